@@ -1,16 +1,32 @@
 #!/usr/bin/env python3
-"""Regenerates expected_obligations.json: the obligations that are discharged on the pinned (repaired) tree.  A
-solver-refuted obligation of this list whose clause can no longer be executed natively is reported as a violation with
-`no-failing-input-found` (DESIGN 2.4)."""
-import json, os, subprocess, tempfile
+"""Regenerates expected_obligations.json: per tier and property, the names of the obligations that the pinned (repaired)
+tree generates, without the ones whose presence depends on the shape of the code rather than on the contract
+(`:after-another-call:` variants are skipped above a path budget; `div-safe` exists only where the code divides).
+Uses: (1) vacuity guard - a run that lacks one of these obligations (and does not report its contract as outside the
+modelled subset) exits 2 with a MISSING line; (2) DESIGN 2.4 - a solver-refuted obligation of this list whose clause can no
+longer be executed natively is reported as a violation with `no-failing-input-found`.
+usage: mkexpected.py [quick|thorough ...]"""
+import json, os, subprocess, sys, tempfile
 ROOT = os.path.dirname(os.path.dirname(os.path.abspath(__file__)))
-out = {}
-for c in json.load(open(os.path.join(ROOT, 'MANIFEST.json')))['checks']:
-    pid = c['property_id']
-    fd, tmp = tempfile.mkstemp(suffix='.json')
-    os.close(fd)
-    subprocess.run([os.path.join(ROOT, 'check'), pid, '--no-evidence', '--no-bounded', '--dump-obligations', tmp], capture_output=True)
-    out[pid] = sorted(n for n, st in json.load(open(tmp)) if st == 'discharged')
-    os.remove(tmp)
-    print(pid, len(out[pid]))
-json.dump(out, open(os.path.join(ROOT, 'expected_obligations.json'), 'w'), indent=0)
+path = os.path.join(ROOT, 'expected_obligations.json')
+tiers = sys.argv[1:] or ['quick', 'thorough']
+try:
+    out = json.load(open(path))
+    if 'quick' not in out and 'thorough' not in out:
+        out = {}
+except Exception:
+    out = {}
+for tier in tiers:
+    out[tier] = {}
+    for c in json.load(open(os.path.join(ROOT, 'MANIFEST.json')))['checks']:
+        pid = c['property_id']
+        fd, tmp = tempfile.mkstemp(suffix='.json')
+        os.close(fd)
+        subprocess.run([os.path.join(ROOT, 'check'), pid, '--tier', tier, '--no-evidence', '--no-bounded', '--dump-obligations', tmp],
+                       capture_output=True)
+        names = [n for n, st in json.load(open(tmp)) if ':after-another-call:' not in n and not n.endswith(':div-safe')
+                 and ':div-safe:' not in n and not n.endswith(':reach') and st in ('discharged', 'violation', 'violation-noinput')]
+        out[tier][pid] = sorted(set(names))
+        os.remove(tmp)
+        print(tier, pid, len(out[tier][pid]), flush=True)
+json.dump(out, open(path, 'w'), indent=0)
